@@ -13,8 +13,8 @@
 (* A component: name (from the adversarial alphabet Names: names that are  *)
 (* suffixes/prefixes of each other, names ending in a digit that collide   *)
 (* with replica suffixes, dotted/dashed names, the same name in two stages)*)
-(* stage, replicate request (none / literal 1..3 / through a variable that *)
-(* is defined at global, stage or component scope), aggregate flag, and an *)
+(* stage, replicate request (none / literal 1,2,3,11 / through a variable   *)
+(* defined at global, stage or component scope), aggregate flag, and an    *)
 (* ordered list of references to components built earlier (so the workflow *)
 (* is acyclic by construction; the document order fed to the code is the   *)
 (* build order or its reverse -- variable `order`).                        *)
@@ -33,6 +33,12 @@
 (* index, count, references, argument tokens).  Names of copies are really *)
 (* computed (name \o ToString(i)) so that a copy colliding with a declared *)
 (* component ("a" x 2 next to "a0") is visible in the model.               *)
+(*                                                                         *)
+(* Binding (harness/checks/c03.py): the constants select a slice of the    *)
+(* family; every expanded state is printed (EmitCase), rendered to FlowIR  *)
+(* (harness/wf_io.py) and executed; the real nodes / edges / references /  *)
+(* argument tokens / replica variable are compared with `out`.             *)
+(* Validate.tla (C11) EXTENDS this module and re-uses the builder.         *)
 (***************************************************************************)
 EXTENDS Integers, Sequences, FiniteSets, TLC, Json
 
